@@ -448,6 +448,14 @@ def it2(ctx, flavours):
                     def is_peer(z):
                         # the stored peer, upgraded from its weak reference -- or the stored handle itself (which of the two is C19's business)
                         z = unwrap_payload(z)
+                        # `upgrade().unwrap_or_else(|| panic!(..))`: with a closure that never returns this is `unwrap()`
+                        if isinstance(z, tuple) and z and z[0] == 'call' and z[1].endswith('Option::unwrap_or_else') and len(z[2]) == 2:
+                            clo_ = z[2][1]
+                            while isinstance(clo_, tuple) and clo_ and clo_[0] == 'v':
+                                clo_ = clo_[1]
+                            cb_ = F.bodies.get(clo_[1][len('closure:'):]) if isinstance(clo_, tuple) and clo_ and clo_[0] == 'aggr' and str(clo_[1]).startswith('closure:') else None
+                            if cb_ is not None and not any(bb_['term']['k'] == 'return' and i_ in F.cfg(cb_).reach for i_, bb_ in enumerate(cb_['blocks']) if not bb_['cleanup']):
+                                z = unwrap_payload(z[2][0])
                         if isinstance(z, tuple) and z[0] == 'call' and z[1].endswith('::WeakNode::upgrade') and _proj_eq(z[2][0], entry, '0'):
                             return True
                         return _proj_eq(z, entry, '0')
